@@ -72,7 +72,7 @@ class SegmentHeader(object):
         """
         Return the total length of the segment, including the CRC.
         """
-        hl = SegmentCodec.UNCOMPRESSED_HEADER_LENGTH if self.uncompressed_payload_length < 1 \
+        hl = SegmentCodec.UNCOMPRESSED_HEADER_LENGTH if self.uncompressed_payload_length < 0 \
             else SegmentCodec.COMPRESSED_HEADER_LENGTH
         return hl + CRC24_LENGTH + self.payload_length + CRC32_LENGTH
 
